@@ -64,6 +64,12 @@ func c12World(tp *Tape, env *Env) (*Plan, *Violation) {
 		if tp.Chance(15, "postrelease") {
 			post = append(post, Op{K: "release_all"})
 		}
+		if tp.Chance(10, "postsnapshot") {
+			post = append(post, Op{K: "snapshot", Slot: 7})
+		}
+		if tp.Chance(10, "postregister") {
+			post = append(post, Op{K: "register"})
+		}
 		post = append(post, Op{K: "next", Arg: junkArgs[tp.Int(0, len(junkArgs)-1, "junk")]})
 	}
 	plan := &Plan{Harness: 1, Property: "C12", Program: prog, Layout: &layout, World: w, Ops: ops,
